@@ -152,6 +152,9 @@ class RunCtx(object):
                 self.register_extractor(cls, fn, raises=True)
             else:
                 def fn(e, cname=cname):
+                    sc = self.sched
+                    if sc is not None and sc.p_switch and _sched.current_actor() is not None:
+                        sc.yield_point("in-extractor")      # a slow extractor that fails in the end
                     raise ExtractorBoom("extractor for %s failed" % cname)
                 self.register_extractor(cls, fn, raises=True)
 
